@@ -272,6 +272,8 @@ fn consistent_hash(st: &mut St) {
 struct Scripted {
     script: Vec<Result<u64, u32>>,
     seen: RefCell<Vec<Arc<u64>>>,
+    /// (deadline, trace id) of the context each attempt was made with
+    seen_ctx: RefCell<Vec<(std::time::Instant, u128)>>,
 }
 
 fn mk_err(kind: u32, attempt: usize) -> RpcError {
@@ -301,9 +303,10 @@ fn show(r: &Result<u64, RpcError>) -> String {
 impl Stub for &Scripted {
     type Req = Arc<u64>;
     type Resp = u64;
-    async fn call(&self, _: context::Context, r: Arc<u64>) -> Result<u64, RpcError> {
+    async fn call(&self, ctx: context::Context, r: Arc<u64>) -> Result<u64, RpcError> {
         let k = self.seen.borrow().len();
         self.seen.borrow_mut().push(r);
+        self.seen_ctx.borrow_mut().push((ctx.deadline, u128::from(ctx.trace_context.trace_id)));
         match self.script.get(k) {
             Some(Ok(v)) => Ok(*v),
             Some(Err(e)) => Err(mk_err(*e, k)),
@@ -313,7 +316,18 @@ impl Stub for &Scripted {
 }
 
 fn retry(st: &mut St, max_len: usize) {
-    let ctx = context::current();
+    // two callers' contexts: a deadline ten seconds away, and one that has already passed (every
+    // attempt is still made with the caller's context, not with a fresh one)
+    let now = std::time::Instant::now();
+    for (ci, deadline) in [now + std::time::Duration::from_secs(10), now.checked_sub(std::time::Duration::from_secs(1)).unwrap_or(now)].into_iter().enumerate() {
+        let mut ctx = context::current();
+        ctx.deadline = deadline;
+        ctx.trace_context.trace_id = tarpc::trace::TraceId::from(0x5150u128 + ci as u128);
+        retry_with(st, if ci == 0 { max_len } else { max_len.min(3) }, ctx);
+    }
+}
+
+fn retry_with(st: &mut St, max_len: usize, ctx: context::Context) {
     for len in 1..=max_len {
         for shape in 0..7u32.pow(len as u32) {
             // result sequence: digit i (base 7) = 0: attempt i+1 succeeds, 1..=6: fails with that kind
@@ -326,7 +340,7 @@ fn retry(st: &mut St, max_len: usize) {
             // every policy table over (is_ok, attempt) for attempts < len; the policy declines at attempt len
             for policy in 0..(1u32 << (2 * (len - 1))) {
                 let seen_attempts: Rc<RefCell<Vec<u32>>> = Rc::new(RefCell::new(vec![]));
-                let backend = Scripted { script: script.clone(), seen: RefCell::new(vec![]) };
+                let backend = Scripted { script: script.clone(), seen: RefCell::new(vec![]), seen_ctx: RefCell::new(vec![]) };
                 let sa = seen_attempts.clone();
                 let l = len as u32;
                 let stub = Retry::new(&backend, move |r: &Result<u64, RpcError>, attempt: u32| {
@@ -341,7 +355,7 @@ fn retry(st: &mut St, max_len: usize) {
                 futures::pin_mut!(f);
                 let out = drive(f, 100);
                 st.evals += 1;
-                st.distinct.insert(h(&("retry", len, shape, policy)));
+                st.distinct.insert(h(&("retry", len, shape, policy, u128::from(ctx.trace_context.trace_id))));
                 // reference: walk the script with the policy
                 let mut k = 1u32;
                 loop {
@@ -363,6 +377,10 @@ fn retry(st: &mut St, max_len: usize) {
                 let seen = backend.seen.borrow();
                 if seen.len() != k as usize {
                     st.failures.push(("C20-retry-attempt-count".into(), format!("{label}: backend called {} times, expected {k}", seen.len())));
+                }
+                let want_ctx = (ctx.deadline, u128::from(ctx.trace_context.trace_id));
+                if backend.seen_ctx.borrow().iter().any(|c| *c != want_ctx) {
+                    st.failures.push(("C20-retry-context-changed".into(), format!("{label}: an attempt was made with a context other than the caller's (deadline / trace id differ)")));
                 }
                 if seen.iter().any(|a| **a != 42 || !Arc::ptr_eq(a, &seen[0])) {
                     st.failures.push(("C20-retry-request-changed".into(), format!("{label}: the backend did not receive the identical request each time")));
